@@ -177,14 +177,19 @@ _IDX_BOUND = ("seeded histories of 4-14 steps (quick: 60, thorough: 750, per bac
 _IDX = "xandikos.store.index.MemoryIndex."
 PROPS["C10"] = {
     "level": "other",
-    "functions": [_IDX + "reset", _IDX + "add_values", _IDX + "get_values"],
+    "functions": [_IDX + "reset", _IDX + "add_values", _IDX + "get_values", _IDX + "available_keys",
+                  "xandikos.store.index.AutoIndexManager.find_present_keys"],
     "explanation": "The in-memory index is under contract (reset forgets every covered etag, add_values records exactly the given values "
-                   "for one etag, get_values returns exactly what was recorded); that the index-side filter evaluation agrees with the "
-                   "object-side one for every filter, and the choice between the two paths (AutoIndexManager, Store.iter_with_filter), "
-                   "are covered by the bounded history explorer only. One deviation is a known finding (component time-range over an "
+                   "for one etag, get_values returns exactly what was recorded) and so is the index manager (the index path is chosen only "
+                   "when every key group of the filter is indexed, otherwise the index is untouched or reset to a superset of its keys "
+                   "with nothing covered); that the index-side filter evaluation agrees with the object-side one for every filter, and "
+                   "Store.iter_with_filter / _iter_with_filter_indexes themselves, are covered by the bounded history explorer only. One deviation is a known finding (component time-range over an "
                    "object with several components of the filtered type).",
-    "replay": {f: INDEX_EXPLORE for f in [_IDX + "reset", _IDX + "add_values", _IDX + "get_values"]},
-    "standins": {f: {"driver": INDEX_EXPLORE, "bound": _IDX_BOUND} for f in [_IDX + "reset", _IDX + "add_values", _IDX + "get_values"]},
+    "replay": {f: INDEX_EXPLORE for f in [_IDX + "reset", _IDX + "add_values", _IDX + "get_values", _IDX + "available_keys",
+                                          "xandikos.store.index.AutoIndexManager.find_present_keys"]},
+    "standins": {f: {"driver": INDEX_EXPLORE, "bound": _IDX_BOUND} for f in [_IDX + "reset", _IDX + "add_values", _IDX + "get_values",
+                                                                             _IDX + "available_keys",
+                                                                             "xandikos.store.index.AutoIndexManager.find_present_keys"]},
     "bounded_always": {"xandikos.store.Store.iter_with_filter": {"driver": INDEX_EXPLORE, "bound": _IDX_BOUND}},
 }
 SCHEDULE = "schedule_explore.py"
